@@ -26,6 +26,8 @@ pub const KF_PAREN_RECORD: &str = "C16-parenthesised-record-pattern-rhs";
 /// record update `{r <- f = e}` is desugared through a variable named `record_update_temp`; a user
 /// variable of that name used in `e` is shadowed (known finding)
 pub const KF_RECORD_TEMP: &str = "C16-user-name-record-update-temp";
+/// `(p, q) |> f` over parameters whose type is not yet inferred is refused unless they are annotated
+pub const KF_SPREAD_ANNOT: &str = "C16-auto-spread-needs-annotated-arguments";
 
 const ORDINARY: &[&str] = &["alpha", "beta", "gamma", "delta", "omega", "kappa", "sigma", "theta", "lambda1", "mu", "nu", "xi", "rho", "tau", "phi", "chi", "psi", "zeta", "eta", "iota"];
 const FIELD_LIKE: &[&str] = &["fc", "fb", "fa", "fc", "fb"];
@@ -222,6 +224,9 @@ impl Prop for C16 {
         cfg.tuple_globals = true;
         // more records bound through record patterns (their key order is what renamings may disturb)
         cfg.rec_weight = 3;
+        if cx.excluded(KF_SPREAD_ANNOT) {
+            cfg.auto_spread = false;
+        }
         cfg.rec_pattern_thirds = 2;
         let mut pg = PG::new(g, cfg);
         let p = pg.program();
@@ -263,7 +268,7 @@ impl Prop for C16 {
         for id in off {
             r.count(&format!("generator_switch_off:{id}"), 1);
         }
-        for id in [KF_FEED_ID, KF_GLOBAL_NAME, KF_RECORD_TEMP] {
+        for id in [KF_FEED_ID, KF_GLOBAL_NAME, KF_RECORD_TEMP, KF_SPREAD_ANNOT] {
             if cx.excluded(id) {
                 r.count(&format!("generator_switch_off:{id}"), 1);
             }
